@@ -841,7 +841,7 @@ func c02Valid(c c02Case) bool {
 	if c02Withheld(c.Expect) && c.Follow == c02FoEmbedded {
 		return false // no body sent, nothing to embed into
 	}
-	if c02TrailerBad(c.Framing) && (c02Withheld(c.Expect) || c.MaxBody == 0 || c.Kind != c02KindOctet) {
+	if c02TrailerBad(c.Framing) && (c02Withheld(c.Expect) || c.MaxBody != 16<<10 || c.Kind != c02KindOctet) {
 		// no body sent: same script as the well-formed trailer. Malformed trailers are enumerated with the 16 KiB
 		// limit and octet bodies only: the default limit repeats the small sizes, and a chunked multipart body is
 		// not pre-parsed, so neither slot changes what happens at the trailer.
@@ -853,16 +853,26 @@ func c02Valid(c c02Case) bool {
 	return true
 }
 
+// c02Limits are the MaxRequestBodySize values (0 = default 4 MiB).
+var c02Limits = []int{1 << 10, 6000, 8 << 10, 16 << 10, 0}
+
 func c02Enumerate(thorough bool) []c02Case {
 	var out []c02Case
 	type ls struct{ max, size int }
 	var sizes []ls
-	for _, L := range []int{16 << 10, 0} {
+	// MaxRequestBodySize against the two fixed thresholds of the streamed-body path, the 4 KiB default read buffer and
+	// the 8 KiB prefetch: below both, between them, equal to the prefetch, above it, and the default.
+	for _, L := range c02Limits {
 		eff := L
 		if eff == 0 {
 			eff = DefaultMaxRequestBodySize
 		}
+		seenSz := map[int]bool{}
 		for _, sz := range []int{0, 1, 8191, 8192, 8193, eff - 1, eff, eff + 1} {
+			if seenSz[sz] {
+				continue
+			}
+			seenSz[sz] = true
 			sizes = append(sizes, ls{L, sz})
 		}
 	}
@@ -943,7 +953,7 @@ func TestVerif_C02(t *testing.T) {
 		return
 	}
 	r.Rule("full product of handler program over the body {ignore, Read 0/1/half/all-but-1, read to EOF, read to EOF + one more Read, PostBody, MultipartForm} x StreamRequestBody x " +
-		"(MaxRequestBodySize L in {16 KiB, default 4 MiB}) x body size {0,1,8191,8192,8193,L-1,L,L+1} x framing {Content-Length, chunked 1/3 chunks, chunked+trailer, chunked with a malformed trailer section: no final CRLF (the follow-up then sits in trailer position), forbidden field (Content-Length), garbage line, cut at end of input; malformed trailers with L=16 KiB and octet bodies only} x " +
+		"(MaxRequestBodySize L in {1 KiB, 6000, 8 KiB, 16 KiB, default 4 MiB}: below the 4 KiB read buffer, between it and the 8 KiB streamed-body prefetch, equal to the prefetch, above it, default; so a fixed-length body can exceed L while fitting the prefetch window, L < size <= 8 KiB) x body size {0,1,8191,8192,8193,L-1,L,L+1} x framing {Content-Length, chunked 1/3 chunks, chunked+trailer, chunked with a malformed trailer section: no final CRLF (the follow-up then sits in trailer position), forbidden field (Content-Length), garbage line, cut at end of input; malformed trailers with L=16 KiB and octet bodies only} x " +
 		"Expect handling {none, accepted by default / ContinueHandler=true / ExpectHandler=100, ContinueHandler=false, ExpectHandler=417, ExpectHandler=403, the rejections with the body withheld or sent anyway} x " +
 		"follow-up {GET /after behind the body, GET /embedded inside the body (octet body: at offset 0 and in every 256-byte block; multipart body: in the epilogue behind the closing delimiter), nothing} x " +
 		"body kind {octet-stream, multipart/form-data (sizes >= 8191)} x delivery {head|body|follow-up in separate reads, all at once (4 MiB bodies: thorough tier only); thorough: 1-byte dribble for scripts <= 20 KiB and a single split at each interesting offset}. " +
